@@ -9,9 +9,10 @@ import OpcuaModel.Gen.SubsFacts
       `handleAcks` / `handleNotification` / `publish`.
   (b) reconnect: the action loop of `Client.monitor` restricted to the
       subscription state.  The full statement "after a successful reconnect all
-      subscriptions are there with their items and the publish loop runs" is
-      false on the unchanged code; the counterexamples are theorems, the partial
-      statements carry explicit guards.
+      subscriptions are there with their items and the publish loop runs" holds for
+      every reconnect that keeps the session (repaired) and, under explicit guards, for
+      the transfer / recreate paths; it is still false when a recreate fails (the
+      counterexamples are theorems).
   The generated facts (`Gen.Subs`) tie the tables of the model to client.go /
   client_sub.go.
 -/
@@ -35,13 +36,13 @@ theorem C26_gen_initial :
     Gen.Subs.initialActions = ErrKind.all.map fun k => (k.goName, (initialAction k).goName) := by decide
 
 /-- `handleAcks` drops an acknowledgement exactly for the three final status codes,
-    re-queues it otherwise, and resets on a length mismatch; the loop is resumed iff
-    `activeSubs > 0` -/
+    re-queues it otherwise, and resets on a length mismatch; the loop is resumed when
+    `activeSubs > 0` or subscriptions are still registered -/
 theorem C26_gen_acks :
     Gen.Subs.ackFinal = [AckRes.ok.goName, AckRes.subInvalid.goName, AckRes.seqUnknown.goName] ∧
     Gen.Subs.ackRetryDefault = true ∧
     Gen.Subs.ackResetCond = "len(c.pendingAcks) != len(res)" ∧
-    Gen.Subs.resumeCond = "activeSubs > 0" := by decide
+    Gen.Subs.resumeConds = ["activeSubs > 0", "len(c.SubscriptionIDs()) > 0"] := by decide
 
 /-- `step` only ever moves to one of the listed targets -/
 theorem C26_step_targets (m m' : Mon) (o : Out) (h : step m o = some m') :
@@ -87,23 +88,30 @@ theorem C26_acks_exactly_once (c : Client) (e : PubEvent) (hw : wellAnswered c e
 
 /-! ### (b) reconnect -/
 
-/-- FINDING (C26.restore-session-no-resume): the TCP connection is cut, the session
-    is still valid on the server.  createSecureChannel → restoreSession →
-    restoreSubscriptions runs with empty work lists, `activeSubs` stays 0, the client
-    reports Connected and the publish loop stays paused for good. -/
-theorem C26_finding_restore_session_no_resume :
+/-- (formerly the finding C26.restore-session-no-resume, repaired.)  The TCP connection is
+    cut, the session is still valid on the server: createSecureChannel → restoreSession →
+    restoreSubscriptions runs with empty work lists, `activeSubs` stays 0, and the publish loop
+    is resumed because the subscription is still registered. -/
+theorem C26_restore_session_resumes :
     (run (onError [⟨1, 1⟩] .eof) [.dialed, .restoreRes false true true, .restoreSubsRes [] []]).map finish
       = some { action := .none, subs := [⟨1, 1⟩], toRepublish := [], toRecreate := [],
-               activeSubs := 0, connected := true, loop := .paused } := by decide
+               activeSubs := 0, connected := true, loop := .running } := by decide
 
-/-- … and this is not one unlucky trace: whenever `restoreSubscriptions` is entered
-    with empty work lists (every reconnect that keeps the session), the loop is left
-    as it was — paused — while the client reports Connected -/
-theorem C26_restore_path_never_resumes (m m' : Mon) (rep : List Bool) (rec : List Recreate)
+/-- every reconnect that keeps the session (`restoreSubscriptions` entered with empty work
+    lists) ends Connected with the registry untouched — every subscription keeps all its
+    items — and the publish loop running if anything is registered (with an empty registry
+    the loop stays as it was: paused) -/
+theorem C26_restore_path_resumes (m m' : Mon) (rep : List Bool) (rec : List Recreate)
     (ha : m.action = .restoreSubscriptions) (h1 : m.toRepublish = []) (h2 : m.toRecreate = [])
     (hs : step m (.restoreSubsRes rep rec) = some m') :
-    m'.connected = true ∧ m'.action = .none ∧ (finish m').loop = m.loop ∧ m'.subs = m.subs :=
+    m'.connected = true ∧ m'.action = .none ∧ m'.subs = m.subs ∧ m'.activeSubs = 0 ∧
+    (m.subs ≠ [] → (finish m').loop = .running) ∧ (m.subs = [] → (finish m').loop = m.loop) :=
   restore_empty ha h1 h2 hs
+
+/-- whichever path the reconnect took: if it ends with a subscription registered, the
+    publish loop is running -/
+theorem C26_connected_with_subs_runs (m : Mon) (h : m.subs ≠ []) : (finish m).loop = .running :=
+  finish_running h
 
 /-- FINDING (C26.recreate-failure-ignored): server restart with two subscriptions.
     The ids are recreated in map order 2, 1; the new server hands out id 1 for the
